@@ -14,7 +14,8 @@ COMMON = r'''
 TARGETS = {
     "i32": ("i32", "7", [
         ("simple", "7", "8"), ("eq", "== 7", "== 8"), ("ne", "!= 8", "!= 7"), ("gt", "> 6", "> 7"), ("le", "<= 7", "<= 6"),
-        ("range", "1..=7", "1..7"), ("wild", "_", None)]),
+        ("range", "1..=7", "1..7"), ("range_to", "..8", "..7"), ("range_to_incl", "..=7", "..=6"), ("range_from", "7..", "8.."),
+        ("wild", "_", None)]),
     "string": ("String", "\"hello\".to_string()", [
         ("string", "\"hello\"", "\"jello\""), ("eq", "== \"hello\"", "== \"x\""), ("ne", "!= \"x\"", "!= \"hello\""),
         ("regex", "=~ r\"^he\"", "=~ r\"^je\""), ("like", "=~ pat", "=~ nopat")]),
